@@ -26,6 +26,9 @@ import (
 //   R-same-type        results decoded with json.Unmarshal are decoded into the very type the server returns
 //   R-err-carry        each client operation turns a JSON-RPC error answer into a Go error that carries the
 //                      answer's message
+//   R-any-member      an interface{} member of a result is stored as decoded, not narrowed to one Go type
+//   R-fresh-buffer    (shared with C01) a reader loop decodes each message into a buffer of its own
+//   R-unbounded-frames the per-call SSE reader imposes no practical line-length limit
 func init() { Registry["C02"] = checkC02 }
 
 type jsonMember struct {
